@@ -297,6 +297,99 @@ def _filter_kwargs(view: dict, a: dict) -> dict:
     return {}
 
 
+LIVE_PATH = "/api/graphql"
+
+
+class _Live:
+    """A GraphQL endpoint the schema is LOADED FROM (introspection over HTTP / WSGI / ASGI) and test cases are SENT to.
+    Everything it receives is recorded: {"method", "path", "ctype", "body", "case_id"}."""
+
+    def __init__(self, view: dict, kind: str):
+        self.kind, self.records, self.server = kind, [], None
+        self.payload = {"data": to_introspection(view)}
+        if kind == "url":
+            from .server import LoopbackServer, json_response
+
+            def behaviour(rec):
+                self.records.append({"method": rec.method, "path": rec.path, "ctype": rec.header("content-type", ""), "body": rec.body,
+                                     "case_id": rec.header("x-schemathesis-testcaseid", "")})
+                return json_response(200, self._answer(rec.body))
+
+            self.server = LoopbackServer(behaviour).start()
+
+    def _answer(self, body: bytes) -> dict:
+        try:
+            query = json.loads(body).get("query", "")
+        except Exception:  # noqa: BLE001
+            query = ""
+        return self.payload if isinstance(query, str) and "__schema" in query else {"data": {}}
+
+    def wsgi_app(self, environ, start_response):
+        body = environ["wsgi.input"].read(int(environ.get("CONTENT_LENGTH") or 0))
+        self.records.append({"method": environ["REQUEST_METHOD"], "path": environ.get("PATH_INFO", ""), "ctype": environ.get("CONTENT_TYPE", ""),
+                             "body": body, "case_id": environ.get("HTTP_X_SCHEMATHESIS_TESTCASEID", "")})
+        out = json.dumps(self._answer(body)).encode()
+        start_response("200 OK", [("Content-Type", "application/json"), ("Content-Length", str(len(out)))])
+        return [out]
+
+    async def asgi_app(self, scope, receive, send):
+        if scope["type"] == "lifespan":
+            while True:
+                message = await receive()
+                if message["type"] == "lifespan.startup":
+                    await send({"type": "lifespan.startup.complete"})
+                elif message["type"] == "lifespan.shutdown":
+                    await send({"type": "lifespan.shutdown.complete"})
+                    return
+        body = b""
+        while True:
+            message = await receive()
+            body += message.get("body", b"")
+            if not message.get("more_body"):
+                break
+        headers = {k.decode().lower(): v.decode("latin-1") for k, v in scope["headers"]}
+        self.records.append({"method": scope["method"], "path": scope["path"], "ctype": headers.get("content-type", ""), "body": body,
+                             "case_id": headers.get("x-schemathesis-testcaseid", "")})
+        out = json.dumps(self._answer(body)).encode()
+        await send({"type": "http.response.start", "status": 200, "headers": [(b"content-type", b"application/json")]})
+        await send({"type": "http.response.body", "body": out})
+
+    def load(self):
+        import schemathesis
+
+        if self.kind == "url":
+            return schemathesis.graphql.from_url(self.server.base_url + LIVE_PATH)
+        if self.kind == "wsgi":
+            return schemathesis.graphql.from_wsgi(LIVE_PATH, self.wsgi_app)
+        return schemathesis.graphql.from_asgi(LIVE_PATH, self.asgi_app)
+
+    def close(self):
+        if self.server is not None:
+            self.server.stop()
+
+
+def project_wire(rec: dict, case_body) -> dict:
+    """What the endpoint received, reduced to what WireViol (GraphQL.tla) reads."""
+    import graphql
+
+    w = {"method": rec["method"], "ctypeJson": rec["ctype"].split(";")[0].strip().lower() == "application/json", "isObject": False, "keys": [],
+         "queryIsString": False, "verbatim": False, "pathOk": rec["path"] == LIVE_PATH, "doc": {"defs": []}}
+    try:
+        payload = json.loads(rec["body"])
+    except Exception:  # noqa: BLE001
+        return w
+    if isinstance(payload, dict):
+        w["isObject"], w["keys"] = True, list(payload)
+        query = payload.get("query")
+        if isinstance(query, str):
+            w["queryIsString"], w["verbatim"] = True, query == case_body
+            try:
+                w["doc"] = project_doc(graphql.parse(query, no_location=True))
+            except Exception:  # noqa: BLE001
+                w["doc"] = {"defs": []}
+    return w
+
+
 def work(item: dict) -> dict:
     """One (shape, loader): draws for every operation under every generation config; offered operations / counts per filter."""
     _setup()
@@ -305,8 +398,24 @@ def work(item: dict) -> dict:
 
     view, loader, sidx = item["view"], item["loader"], item["s"]
     rng_seed = item["seed"]
-    res = {"s": sidx, "loader": loader, "docs": [], "ops": [], "errors": [], "draws": 0, "canon": [], "gql": {}}
+    res = {"s": sidx, "loader": loader, "docs": [], "ops": [], "errors": [], "draws": 0, "canon": [], "gql": {}, "wire": [], "maps": []}
     gschema = graphql.build_schema(to_sdl(view))  # independent of schemathesis; used only for the side-by-side validate
+    live = _Live(view, loader) if loader in ("url", "wsgi", "asgi") else None
+    load = live.load if live else (lambda: _load(view, loader))
+    try:
+        _work_body(item, res, gschema, live, load)
+    finally:
+        if live:
+            live.close()
+    return res
+
+
+def _work_body(item: dict, res: dict, gschema, live, load) -> None:
+    import graphql
+    from schemathesis.generation import GenerationConfig
+
+    view, loader, sidx = item["view"], item["loader"], item["s"]
+    rng_seed = item["seed"]
     ops = sorted(view["ops"], key=lambda o: (o["root"] != "query", o["field"]))
     only = item.get("only")  # replay: restrict to one (cfg, root, field, access)
 
@@ -329,6 +438,33 @@ def work(item: dict) -> dict:
         if err is not None:
             res["errors"].append({"s": sidx, "loader": loader, "cfg": cfg, "root": op["root"], "field": op["field"], "access": access,
                                   "generatable": op["generatable"], "error": err})
+        if live is not None and access != "engine":
+            sent = set()
+            for case in cases:
+                if not isinstance(case.body, str) or case.body in sent or len(sent) >= 4:
+                    continue
+                sent.add(case.body)
+                mark = len(live.records)
+                try:
+                    case.call()
+                except BaseException as exc:  # noqa: BLE001
+                    res["errors"].append({"s": sidx, "loader": loader, "cfg": cfg, "root": op["root"], "field": op["field"], "access": access,
+                                          "generatable": True, "error": "call: %s: %s" % (type(exc).__name__, str(exc)[:120])})
+                    continue
+                for rec in live.records[mark:]:
+                    res["wire"].append({"s": sidx, "loader": loader, "cfg": cfg, "root": op["root"], "field": op["field"], "access": access + "+call",
+                                        "body": case.body, "w": project_wire(rec, case.body)})
+
+    def record_by_operation(cfg, access, cases, err):
+        """Cases of a combined strategy: each is judged against the operation it says it was generated for."""
+        groups: dict = {}
+        for case in cases:
+            groups.setdefault(case.operation.label, []).append(case)
+        for label, group in groups.items():
+            op = dict(_label_to_op(view, label), generatable=True)
+            record(cfg, op, access, group, None)
+        if err is not None:
+            res["errors"].append({"s": sidx, "loader": loader, "cfg": cfg, "access": access, "generatable": False, "error": err})
 
     for ci, cfg in enumerate(item["cfgs"]):
         gen = GenerationConfig(graphql_allow_null=cfg[0], allow_x00=cfg[1], codec="ascii" if cfg[2] else "utf-8")
@@ -336,7 +472,7 @@ def work(item: dict) -> dict:
         if ci == 0 and item.get("all_access", True):
             plans += [("getitem-mutation-first", list(reversed(ops))), ("get_all_operations", ops)]
         for access, order in plans:
-            schema = _load(view, loader)  # fresh object: the operation cache starts empty for each access order
+            schema = load()  # fresh object: the operation cache starts empty for each access order
             if access == "get_all_operations":
                 by_label = {r.ok().label: r.ok() for r in schema.get_all_operations()}
             for op in order:
@@ -354,9 +490,28 @@ def work(item: dict) -> dict:
                     continue
                 cases, err = _draw(strategy, n, rng_seed + 7919 * ci + len(res["docs"]))
                 record(list(cfg), op, access, cases, err)
+        if ci == 0 and item.get("all_access", True) and not only:
+            # the combined strategies: all operations of the schema / of one root type
+            schema = load()
+            cases, err = _draw(schema.as_strategy(generation_config=gen), 2 * item["n"], rng_seed + 11)
+            record_by_operation(list(cfg), "schema.as_strategy", cases, err)
+            for name in list(schema):
+                cases, err = _draw(schema[name].as_strategy(generation_config=gen), item["n"], rng_seed + 13)
+                record_by_operation(list(cfg), "map.as_strategy", cases, err)
+        if ci == 0 and item.get("engine") and live is not None and not only:
+            _engine_slice(item, res, live, load, gen, list(cfg))
 
     if not only:
-        base = _load(view, loader)
+        # mapping-style access: iterating the schema / a root's map
+        try:
+            schema = load()
+            names = list(schema)
+            res["maps"].append({"s": sidx, "loader": loader, "roots": [_label_to_op(view, n_ + ".")["root"] for n_ in names],
+                                "fields": [_label_to_op(view, "%s.%s" % (n_, f_)) for n_ in names for f_ in list(schema[n_])],
+                                "lens": [len(schema[n_]) for n_ in names]})
+        except BaseException as exc:  # noqa: BLE001
+            res["errors"].append({"s": sidx, "loader": loader, "generatable": True, "error": "maps: %s: %s" % (type(exc).__name__, str(exc)[:120])})
+        base = load()
         for f in view["filters"]:
             filt = f["filt"]
             sch = base
@@ -387,7 +542,43 @@ def work(item: dict) -> dict:
                     unknown = bool(set(m["viol"]) & UNKNOWN_RULES)
                     res["canon"].append({"s": sidx, "op": [op["root"], op["field"]], "mutant": m["name"], "text": text, "roundtrip": roundtrip,
                                          "spec_valid": spec_valid, "unknown": unknown, "gql": rules, "viol": sorted(m["viol"])})
-    return res
+
+
+def _engine_slice(item: dict, res: dict, live, load, gen, cfg: list) -> None:
+    """The engine front door: the real unit phase (fuzzing) against the live endpoint; requests are matched to the operation of
+    their case through the per-case id header."""
+    import hypothesis
+    from hypothesis import HealthCheck
+    from schemathesis.engine import events, from_schema
+    from schemathesis.engine.config import EngineConfig, ExecutionConfig
+    from schemathesis.engine.phases import PhaseName
+
+    view, sidx, loader = item["view"], item["s"], item["loader"]
+    schema = load()
+    settings = hypothesis.settings(max_examples=4, database=None, deadline=None, suppress_health_check=list(HealthCheck))
+    config = EngineConfig(execution=ExecutionConfig(phases=[PhaseName.FUZZING], seed=item["seed"] % 1000 + 1, hypothesis_settings=settings, generation=gen))
+    mark = len(live.records)
+    label_of, body_of = {}, {}
+    try:
+        for ev in from_schema(schema, config=config).execute():
+            if isinstance(ev, events.ScenarioFinished):
+                for case_id, node in ev.recorder.cases.items():
+                    label_of[case_id] = node.value.operation.label
+                    body_of[case_id] = node.value.body
+            elif isinstance(ev, (events.NonFatalError, events.FatalError)):
+                exc = getattr(ev, "value", None) or getattr(ev, "exception", None)
+                res["errors"].append({"s": sidx, "loader": loader, "access": "engine", "generatable": False, "error": "engine: %r" % (exc,)})
+    except BaseException as exc:  # noqa: BLE001
+        res["errors"].append({"s": sidx, "loader": loader, "access": "engine", "generatable": True, "error": "engine: %s: %s" % (type(exc).__name__, str(exc)[:120])})
+    seen = set()
+    for rec in live.records[mark:]:
+        label = label_of.get(rec["case_id"])
+        if label is None or rec["body"] in seen:
+            continue        # the introspection request of the loader, or a case the recorder does not know
+        seen.add(rec["body"])
+        op = _label_to_op(view, label)
+        res["wire"].append({"s": sidx, "loader": loader, "cfg": cfg, "root": op["root"], "field": op["field"], "access": "engine",
+                            "body": body_of.get(rec["case_id"]), "w": project_wire(rec, body_of.get(rec["case_id"]))})
 
 
 # --------------------------------------------------------------------------------------------------------------------
@@ -492,9 +683,16 @@ def evaluate(ctx: Ctx, out: Outcome, views: list[dict], results: list[dict]) -> 
     shapes = [v["shape"] for v in views]
     docs = [d for r in results for d in r["docs"]]
     opsobs = [o for r in results for o in r["ops"]]
-    obs = [_tlc_doc_obs(d) for d in docs] + [_tlc_ops_obs(o) for o in opsobs]
+    wires = [w for r in results for w in r.get("wire", [])]
+    maps = [m_ for r in results for m_ in r.get("maps", [])]
+    obs = [_tlc_doc_obs(d) for d in docs] + [_tlc_ops_obs(o) for o in opsobs] + \
+        [{"k": "wire", "s": w["s"] + 1, "cfg": {"allowNull": w["cfg"][0], "allowX00": w["cfg"][1], "ascii": w["cfg"][2]}, "root": w["root"],
+          "field": w["field"], "w": w["w"]} for w in wires] + \
+        [{"k": "maps", "s": m_["s"] + 1, "roots": m_["roots"], "fields": m_["fields"]} for m_ in maps]
     bad, judged, t_judge = judge(ctx, shapes, obs)
     nd = len(docs)
+    nw0 = nd + len(opsobs)
+    nm0 = nw0 + len(wires)
     unknown = 0
     discrepancies = 0
     for i, d in enumerate(docs):
@@ -536,7 +734,7 @@ def evaluate(ctx: Ctx, out: Outcome, views: list[dict], results: list[dict]) -> 
             rules.add("total-count")
         if rules:
             py_bad[nd + j] = sorted(rules)
-    tlc_ops_bad = {k: v for k, v in bad.items() if k >= nd}
+    tlc_ops_bad = {k: v for k, v in bad.items() if nd <= k < nw0}
     if tlc_ops_bad != py_bad:
         raise tlc.TLCFailure("judge (TLC) and exporter disagree on offered/counts observations: %s vs %s" % (
             sorted(tlc_ops_bad.items())[:3], sorted(py_bad.items())[:3]))
@@ -552,6 +750,25 @@ def evaluate(ctx: Ctx, out: Outcome, views: list[dict], results: list[dict]) -> 
                 {"kind": "ops", "view": view, "loader": o["loader"], "filt": o["filt"], "rule": r}))
         if o["len"] != o["total"]:
             pass
+    # requests as received by a live endpoint (from_url / from_wsgi / from_asgi; case.call() and the engine)
+    for k in sorted(k for k in bad if nw0 <= k < nm0):
+        w = wires[k - nw0]
+        view = views[w["s"]]
+        for r in [r for r in bad[k] if r not in UNKNOWN_RULES]:
+            sig = "C20:%s:loader=%s:access=%s" % (r, w["loader"], w["access"]) if r.startswith("wire-") else \
+                doc_signature(view, dict(w, doc=w["w"]["doc"]), r) + ":on-the-wire"
+            out.violations.append(Violation(sig, "%s: request received for %s.%s (%s, %s): method=%s keys=%s path ok=%s json=%s verbatim=%s; case.body=%r" % (
+                r, w["root"], w["field"], w["loader"], w["access"], w["w"]["method"], w["w"]["keys"], w["w"]["pathOk"], w["w"]["ctypeJson"],
+                w["w"]["verbatim"], (w["body"] or "")[:120]),
+                {"kind": "wire", "view": view, "loader": w["loader"], "rule": r, "engine": w["access"] == "engine"}))
+    # mapping-style access
+    for k in sorted(k for k in bad if k >= nm0):
+        m_ = maps[k - nm0]
+        view = views[m_["s"]]
+        for r in bad[k]:
+            out.violations.append(Violation("C20:%s:clash=%s:roots=%s:sub=%s" % (r, view["shape"]["mut"], view["shape"]["names"], view["shape"]["sub"]),
+                                            "%s: iterating the schema gives roots %s and fields %s (%s)" % (r, m_["roots"], m_["fields"], m_["loader"]),
+                                            {"kind": "maps", "view": view, "loader": m_["loader"], "rule": r}))
     # the specification's canonical documents and mutants against graphql-core
     canon = [c for r in results for c in r["canon"]]
     for c in canon:
@@ -566,7 +783,9 @@ def evaluate(ctx: Ctx, out: Outcome, views: list[dict], results: list[dict]) -> 
                 "spec document %r: TLA+ validation part says %s (%s), graphql-core says %s" % (
                     c["text"], "valid" if c["spec_valid"] else "invalid", c["viol"], c["gql"] or "valid"),
                 {"kind": "canon", "view": views[c["s"]], "op": c["op"], "mutant": c["mutant"]}))
-    return {"docs": nd, "ops": len(opsobs), "judged": judged, "t_judge": t_judge, "bad_docs": sum(1 for k in bad if k < nd),
+    return {"wire": len(wires), "wire_by": {k2: sum(1 for w in wires if (w["loader"], w["access"].split("+")[-1]) == k2) for k2 in
+                                            {(w["loader"], w["access"].split("+")[-1]) for w in wires}}, "maps": len(maps),
+            "docs": nd, "ops": len(opsobs), "judged": judged, "t_judge": t_judge, "bad_docs": sum(1 for k in bad if k < nd),
             "unknown_docs": unknown, "discrepancies": discrepancies, "canon_checked": len(canon),
             "canon_mutants_rejected_by_both": sum(1 for c in canon if not c["spec_valid"] and c["gql"])}
 
@@ -740,6 +959,15 @@ def run(ctx: Ctx) -> Outcome:
             items.append({"s": s, "view": view, "loader": ld, "cfgs": cfgs if loader == "sdl" else CFGS_QUICK[::3], "n": n,
                           # the other access orders matter where a Mutation type exists; elsewhere on a slice of the family in the quick tier
                           "all_access": (not ctx.quick) or view["shape"]["mut"] != "none" or s % 4 == 0, "seed": (ctx.seed * 1000003 + s * 17 + li) % (2 ** 31)})
+    # live front doors: the schema is loaded FROM an endpoint (HTTP introspection, WSGI, ASGI) and the cases are SENT to it
+    step = 6 if ctx.quick else 2
+    for s, view in enumerate(views):
+        kind = {1: "url", 3: "wsgi", 5: "asgi"}.get(s % 6) if ctx.quick else ("url", "wsgi", "asgi")[s % 3]
+        if kind is None or (not ctx.quick and s % step):
+            continue
+        items.append({"s": s, "view": dict(view, filters=view["filters"][:6]), "loader": kind, "cfgs": CFGS_QUICK[1:2] if kind != "url" else CFGS_QUICK[:1],
+                      "n": n, "all_access": s % 4 == 1 or view["shape"]["mut"] != "none", "engine": kind == "url" and (not ctx.quick or s % 12 == 1),
+                      "seed": (ctx.seed * 1000003 + s * 17 + 5) % (2 ** 31)})
     t1 = time.time()
     results = common.pmap(work, items, chunk=1)
     t_draw = time.time() - t1
@@ -778,7 +1006,9 @@ def run(ctx: Ctx) -> Outcome:
         "exhaustive": False,
         "exhaustive_detail": {"schema_shapes_and_filters_within_cfg": True, "draws": False},
         "constants": {"cfg": cfg, "draws_per_operation": n, "generation_configs(allow_null,allow_x00,ascii)": cfgs},
-        "documents_judged": m["docs"], "offered_observations_judged": m["ops"], "documents_rejected": m["bad_docs"],
+        "documents_judged": m["docs"], "offered_observations_judged": m["ops"],
+        "requests_on_the_wire_judged": m["wire"], "requests_on_the_wire_by(loader,access)": {"%s/%s" % k2: v for k2, v in sorted(m["wire_by"].items())},
+        "mapping_access_observations_judged": m["maps"], "documents_rejected": m["bad_docs"],
         "documents_with_undetermined_values": m["unknown_docs"],
         "skipped_outside_fragment": m["unknown_docs"] + len(errors) - len(unexpected),
         "operations_without_strategy(expected: required unregistered scalar)": len(errors) - len(unexpected),
@@ -812,6 +1042,13 @@ def replay(ctx: Ctx, data: dict) -> Outcome:
         r = work(item)
         r["canon"] = []
         evaluate(ctx, out, [view], [r])
+        return out
+    if data["kind"] in ("wire", "maps"):
+        r = work({"s": 0, "view": dict(view, filters=[]), "loader": data["loader"], "cfgs": CFGS_QUICK[:2], "n": 10, "seed": 1, "engine": data.get("engine", False)})
+        r["canon"] = []
+        o2 = Outcome()
+        evaluate(ctx, o2, [view], [r])
+        out.violations = [v for v in o2.violations if (":%s:" % data["rule"]) in v.signature + ":"][:3]
         return out
     if data["kind"] == "history":
         for seed in range(3):
